@@ -279,6 +279,12 @@ theorem collRemove_ok {fuel : Nat} {o : ObjId} {c : Attr} {items : List ObjId} {
     (rewriteRow isRev o c f st).store = st.store.setRow o c f := by
   unfold rewriteRow; cases isRev <;> rfl
 
+theorem finalRow_false (items : List ObjId) (s : Store) : finalRow false items s = fun x => items.contains x := by
+  funext x; simp [finalRow]
+
+theorem finalRow_true (items : List ObjId) (s : Store) : finalRow true items s = fun x => items.contains x && s.alive x := by
+  funext x; simp [finalRow]
+
 /-- `Set.__set__` (collection assignment, `clear`, and the collection attributes of a constructor call) -/
 theorem setCollCore_ok {del : ObjId → St → Res} {isRev : Bool} {o : ObjId} {c : Attr} {items : List ObjId} {st st' : St} {cd : Side}
     (hdel : DelSpec sch del)
@@ -323,6 +329,10 @@ theorem setCollCore_ok {del : ObjId → St → Res} {isRev : Bool} {o : ObjId} {
           obtain ⟨hH2, hRf2, hF2, hM2, hAl2⟩ := iterSet_ok hrd hrd' hc' hcd o _ _ _ h2
           split at h1
           · -- one-to-many, cascade
+            rename_i hcasc
+            have hfr : finalRow (!rd.isColl && cd.cascade) items st2.store = fun x => items.contains x && st1.store.alive x := by
+              rw [hrd', hcasc]; simp only [Bool.not_false, Bool.and_self]; rw [finalRow_true, hF2.alive]
+            rw [hfr]
             obtain ⟨hD1, hS1, hC1, hdead⟩ := iterDel_ok hdel (fun _ _ => False) (fun _ => False) _ _ _ h1
               (fun x hx => ((hrem x).mp hx).1) hR (D_false_iff.mpr hA)
             have hA1 := D_false_iff.mp hD1
@@ -382,6 +392,11 @@ theorem setCollCore_ok {del : ObjId → St → Res} {isRev : Bool} {o : ObjId} {
               clear h12 h1 h2
               grind [Schema.rev_rev, Schema.rev_inj]
           · -- one-to-many, no cascade
+            rename_i hcasc
+            have hfr : finalRow (!rd.isColl && cd.cascade) items st2.store = fun x => items.contains x := by
+              have : cd.cascade = false := by simpa using hcasc
+              rw [this]; simp only [Bool.and_false]; exact finalRow_false _ _
+            rw [hfr]
             obtain ⟨hH1, hRf1, hF1, hM1, hAl1⟩ := iterClear_ok hrd hrd' hc' hcd _ _ _ h1
             have e0 := hasB_ref_eq (sch := sch) (s := st.store) hrd hrd'
             refine ⟨?_, ?_, ?_, ?_, ?_⟩
@@ -437,6 +452,9 @@ theorem setCollCore_ok {del : ObjId → St → Res} {isRev : Bool} {o : ObjId} {
         · -- many-to-many
           rename_i hcoll
           have hrd' : rd.isColl = true := by simpa using hcoll
+          have hfr : finalRow (!rd.isColl && cd.cascade) items st2.store = fun x => items.contains x := by
+            rw [hrd']; simp only [Bool.not_true, Bool.false_and]; exact finalRow_false _ _
+          rw [hfr]
           obtain ⟨st1, h1, h2⟩ := Res.bind_ok h12
           obtain ⟨hH1, hRf1, hF1, hM1, hAs1⟩ := reverseRemove_ok hrd hrd' o _ _ _ h1
           obtain ⟨hH2, hRf2, hF2, hM2, hAs2⟩ := reverseAdd_ok hrd hrd' o _ _ _ h2
